@@ -204,7 +204,8 @@ where
     // Channel to collect results from all attempts
     let (tx, mut rx) = mpsc::channel::<(usize, Result<S::Response, S::Error>)>(max_attempts);
 
-    // Spawn primary request on the instance that was polled ready; hedges use clones of it
+    // Spawn primary request on the instance that was polled ready; hedges use clones
+    // of it and must drive their own readiness first
     let mut service_clone = service;
     let service = service_clone.clone();
     let req_clone = req.clone();
@@ -304,7 +305,10 @@ where
                             let r = req.clone();
                             let tx_c = tx.clone();
                             tokio::spawn(async move {
-                                let result = svc.call(r).await;
+                                let result = match std::future::poll_fn(|cx| svc.poll_ready(cx)).await {
+                                    Ok(()) => svc.call(r).await,
+                                    Err(e) => Err(e),
+                                };
                                 let _ = tx_c.send((attempt_num, result)).await;
                             });
 
@@ -370,7 +374,10 @@ where
                     let r = req.clone();
                     let tx_c = tx.clone();
                     tokio::spawn(async move {
-                        let result = svc.call(r).await;
+                        let result = match std::future::poll_fn(|cx| svc.poll_ready(cx)).await {
+                            Ok(()) => svc.call(r).await,
+                            Err(e) => Err(e),
+                        };
                         let _ = tx_c.send((i, result)).await;
                     });
                 }
